@@ -89,6 +89,8 @@ EXPLAIN_CONTENT = {
                    'or entries have run, the rest have not, and the current state is stale'),
     'O8-offer': ('the event is not offered to the states of the active chain in order (current state first, then its parent, ...), or the guard fallback (EMPTY re-ask) '
                  'goes to another state than the one that has just declined: an inner state is skipped, or an outer state answers an event that an inner one would have handled'),
+    'O9-init': ('INIT is sent to a state that is not known to be the current target (the state entered last): the initial transition of another state is taken, or the '
+                'same state is asked again and again'),
     'O6-lca': ('where the entry-path routine returns, the exits made and the entry index do not meet at one tested common state: it must have compared a state of the active '
                'chain at depth m with an ancestor of the target at depth q (identity/equality test passed on this path), have exited exactly the m states below it, and '
                'return q-1 so that entry starts just below it (for source == target the pair of parents is the common state: exit and re-enter the source)'),
@@ -108,7 +110,7 @@ def content_analysis(model, entry_name, cursor_at_entry):
 def record_content_obligations(run, model, entry_name, cursor_at_entry=False, rule='HSM-CONTENT', kinds=None):
     """slot k of the path buffer holds the k-th ancestor of the target whenever it is used for entry (ghost frontier K, ghost depths d)"""
     ca, res = content_analysis(model, entry_name, cursor_at_entry)
-    counts = {'O4-content': 0, 'O5-content': 0, 'O6-exit': 0, 'O6-lca': 0, 'O7-noraise': 0, 'O8-offer': 0}
+    counts = {'O4-content': 0, 'O5-content': 0, 'O6-exit': 0, 'O6-lca': 0, 'O7-noraise': 0, 'O8-offer': 0, 'O9-init': 0}
     for o in res:
         if o['kind'] not in counts or (kinds is not None and o['kind'] not in kinds):
             continue
@@ -300,6 +302,33 @@ def lca_match_rule(run, model, rule='HSM-LCA.match'):
                  '' if ok else 'when the walk up from the target reaches the source state the entry index is not stepped back by one: the source is re-entered or a state skipped',
                  node=t.ast, obligation=True)
     return n
+
+
+# ---------------------------------------------------------------------------------------------- chart.trans(fn): the handler-side half of H3
+
+def trans_api_rule(run, model, rule='HSM-TRANS'):
+    """H3 says a handler that wants a transition calls chart.trans(x) and returns its result: trans must put x into the cursor and answer TRAN"""
+    hep = processor(model)
+    f = hep.methods.get('trans')
+    if f is None or len(f.params) < 2:
+        raise AnalysisError('HsmEventProcessor.trans(self, fn) not found')
+    g = cfg_of(f)
+    run.touch(f, g)
+    selfn, fnp = f.params[0], f.params[1]
+    stores = [n for n in g.nodes if n.kind == 'stmt' and isinstance(n.ast, ast.Assign) and any(dotted(t) == selfn + '.temp.fun' for t in n.ast.targets)]
+    rets = [n for n in g.nodes if n.kind == 'stmt' and isinstance(n.ast, ast.Return)]
+    falls = [p_ for p_, lab in g.pred[g.exit] if lab != 'return']
+    ok = bool(rets) and not falls and all(r.ast.value is not None and status_const(r.ast.value) == 'TRAN' for r in rets)
+    run.inst(rule, f, 'trans answers TRAN on every path', ok,
+             '' if ok else 'chart.trans() does not return return_status.TRAN on every path: a handler that does `return chart.trans(x)` does not request the transition', obligation=True)
+    good = [n for n in stores if isinstance(n.ast.value, ast.Name) and n.ast.value.id == fnp]
+    ok = bool(good) and len(good) == len(stores) and all(any(g.dominates(s_, r) for s_ in good) for r in rets)
+    run.inst(rule, f, 'trans stores its argument in the cursor before it returns', ok,
+             '' if ok else ('chart.trans(x) does not leave x in the cursor (temp.fun) on every path: the processor reads the target of a transition from the cursor, so it would '
+                            'transition to whatever state the cursor happened to hold'), obligation=True)
+    others = sorted({dotted(t) for n in g.nodes if n.kind == 'stmt' and isinstance(n.ast, (ast.Assign, ast.AugAssign)) for t in (n.ast.targets if isinstance(n.ast, ast.Assign) else [n.ast.target])
+                     if dotted(t) and dotted(t).startswith(selfn + '.') and dotted(t) != selfn + '.temp.fun'})
+    run.inst(rule, f, 'trans changes nothing but the cursor', not others, '' if not others else 'chart.trans() also writes %s' % others, obligation=True)
 
 
 # ---------------------------------------------------------------------------------------------- signal sets
@@ -702,6 +731,10 @@ def query_rules(run, model, rule='HSM-QUERY'):
             if isinstance(n.ast, ast.Assign) and isinstance(n.ast.targets[0], ast.Name):
                 rvs.add(n.ast.targets[0].id)
         cur, argn = selfn + '.temp.fun', argp
+        looping = any(n_ in body for n_, c_, t_, s_ in sites)
+        run.inst(rule + '.walk', f, 'the outward step is repeated (it lies on a cycle of the walk)', looping,
+                 '' if looping else ('the SUPER step of %s is not inside a loop any more (the walk is left unconditionally after the first level): only the current state and nothing above it '
+                                     'is ever compared with the argument' % nm), obligation=True)
         for b_ in breaks:
             atoms = must_atoms(g, b_, f.node, params=f.params)
             on_match = any((l, op, r) in atoms for (l, op, r) in ((cur, 'Eq', argn), (argn, 'Eq', cur), (cur, 'Is', argn), (argn, 'Is', cur)))
@@ -752,7 +785,21 @@ def query_rules(run, model, rule='HSM-QUERY'):
             run.inst(rule + '.walk', f, 'child_state starts its walk at the current state', bool(seedc), 'the walk does not start from state.fun', obligation=True)
             asserts = [n for n in walk_shallow(f.node) if isinstance(n, ast.Assert)]
             oka = any(any(isinstance(x, ast.Name) and any(isinstance(fs.ast.targets[0], ast.Name) and fs.ast.targets[0].id == x.id for fs in flagsets) for x in ast.walk(a.test)) for a in asserts)
-            run.inst(rule + '.match', f, 'child_state fails when the argument does not enclose the current state', oka, 'the confirmation assert is gone', obligation=True)
+            if oka:
+                # the assert must hold exactly when the match flag is set
+                from .boolflow import evaluate
+                flagnames = {fs.ast.targets[0].id for fs in flagsets if isinstance(fs.ast.targets[0], ast.Name)}
+                oka = False
+                for a in asserts:
+                    used = [x.id for x in ast.walk(a.test) if isinstance(x, ast.Name) and x.id in flagnames]
+                    if len(set(used)) == 1:
+                        vt = evaluate(a.test, {used[0]: True})
+                        vf = evaluate(a.test, {used[0]: False})
+                        if vt is True and vf is False:
+                            oka = True
+            run.inst(rule + '.match', f, 'child_state fails when the argument does not enclose the current state', oka,
+                     'the confirmation assert is gone or does not hold exactly when the argument was found on the active path: child_state answers (or fails) for the wrong arguments',
+                     obligation=True)
 
 
 # ---------------------------------------------------------------------------------------------- progress / None discipline (C24)
